@@ -136,6 +136,8 @@ def main():
         name = order[i % len(order)]
         cfg = mg.random_cfg(rng, name, unaligned=True) if i >= len(order) else mg.default_cfg(name)
         cfg["align"], cfg["permutate"] = "none", False
+        if mg.same_node_identical_spinful(name):
+            cfg["keep"] = None
         if cfg["dyn"] == "abw":
             cfg["dyn"] = "bwff"
         pseed = rng.randrange(10**9)
